@@ -13,6 +13,9 @@ You are working in a scratch git worktree of the Go library valyala/fasthttp at 
 (do all your work there; never touch `/repo` or `/verif`, and do not read anything under `/verif`).
 The sandbox is offline. Use these env vars for every go command:
 `export GOFLAGS=-mod=mod GOPROXY=off` (do NOT set GOSUMDB or GOTOOLCHAIN).
+Never use `git stash` (the stash is shared with other worktrees of the same repository and other people are working in those);
+to get back to the clean tree use `git checkout -- . && git clean -fdq` inside your worktree only.
+Other jobs share this machine: if a timing-sensitive test flakes, re-run that test alone before concluding anything.
 
 ## The property (this is all you are given)
 
